@@ -456,6 +456,45 @@ theorem geoGridNodeNumber_spec (lat lon : Nat → ℝ) (latq lonq : ℝ) (N k : 
     rw [List.getElem?_map, List.getElem?_range (by omega)]
     rfl
 
+/-! ## from the exact theorems to "up to the same error"
+
+The float32 implementation is within `ε` of the exact matrix entrywise (sampled
+by the harness, not proved).  These two lemmas turn that bound into the slack
+the property statement allows for the triangle inequality (`3 ε`) and for
+lookups (`2 ε`); they are the constants the oracle in `harness/c12.py` uses. -/
+
+/-- a matrix within `ε` of one obeying the triangle inequality obeys it up to `3 ε` -/
+theorem triangle_of_close (D D' : Nat → Nat → ℝ) (ε : ℝ) (a b c : Nat)
+    (hab : |D' a b - D a b| ≤ ε) (hbc : |D' b c - D b c| ≤ ε) (hac : |D' a c - D a c| ≤ ε)
+    (h : D a c ≤ D a b + D b c) : D' a c ≤ D' a b + D' b c + 3 * ε := by
+  have h1 := abs_le.1 hab
+  have h2 := abs_le.1 hbc
+  have h3 := abs_le.1 hac
+  linarith [h1.1, h1.2, h2.1, h2.2, h3.1, h3.2]
+
+/-- any matrix within `ε` of the exact angular distances satisfies the triangle
+inequality up to `3 ε` -/
+theorem angularDistance_triangle_approx (lat lon : Nat → ℝ) (N : Nat) (D' : Nat → Nat → ℝ) (ε : ℝ)
+    (hclose : ∀ a < N, ∀ b < N, |D' a b - angularDistance realTrig lat lon N a b| ≤ ε)
+    (a b c : Nat) (ha : a < N) (hb : b < N) (hc : c < N) :
+    D' a c ≤ D' a b + D' b c + 3 * ε :=
+  triangle_of_close _ D' ε a b c (hclose a ha b hb) (hclose b hb c hc) (hclose a ha c hc)
+    (angularDistance_triangle lat lon N a b c ha hb hc)
+
+/-- a minimiser of distances known only up to `ε` is within `2 ε` of the true minimum -/
+theorem nearest_of_close (d d' : Nat → ℝ) (ε : ℝ) (N k : Nat)
+    (hclose : ∀ m < N, |d' m - d m| ≤ ε) (hk : k < N) (hmin : ∀ m < N, d' k ≤ d' m) :
+    ∀ m < N, d k ≤ d m + 2 * ε := by
+  intro m hm
+  have h1 := abs_le.1 (hclose k hk)
+  have h2 := abs_le.1 (hclose m hm)
+  linarith [hmin m hm, h1.1, h1.2, h2.1, h2.2]
+
+example : (2 : ℝ) ≤ 1 + 1 + 3 * 1 := by
+  have := triangle_of_close (fun _ _ => 1) (fun a b => if a = 0 ∧ b = 2 then 2 else 1) 1 0 1 2
+    (by simp) (by simp) (by norm_num) (by norm_num)
+  simpa using this
+
 /-! ## rectangular grids -/
 
 /-- a multi-index is valid when every component is below its axis' length -/
